@@ -167,7 +167,7 @@ def c12(ck, tmp):
     from gaftools.cli.realign import run_realign
     from p_graph import tokenize_gfa
     rng = ck.rng
-    nfiles = 40 if ck.tier == "quick" else 600
+    nfiles = 40 if ck.tier == "quick" else 200
     for it in range(nfiles):
         if len(ck.violations) > 5:
             break           # enough failing inputs for a replay; under a defect the remaining files can be very slow
@@ -636,7 +636,7 @@ def main(prop):
         # the runs with real processes are slow when the tool hangs (every hang costs a watchdog period): they are skipped once
         # a failing input has been found
         if not ck.violations:
-            real_runs(ck, prop, tmp, inputs, 4 if quick else 80)
+            real_runs(ck, prop, tmp, inputs, 4 if quick else 40)
         if prop == "C11" and not ck.violations:
             default_batch_runs(ck, tmp, [2] if quick else [2, 3, 4])
         if prop == "C11" and not ck.violations:
